@@ -39,6 +39,10 @@ func c07Frame(c *sim.Ctx) (frame []byte, fm []ref.Field, valid bool) {
 		}
 		g := gen.NewG(t, c.Thorough, 0)
 		a = &ref.AP{Type: ref.Publish, Flags: byte(t.Int(3)) << 1, Topic: []byte("big/one"), PacketID: 9, Payload: g.Bin(n)}
+		if t.Bool(1, 3) {
+			// the reserved type 0 with a body of 256 KiB .. 3 MiB (decoded as Undefined)
+			a = &ref.AP{Type: ref.Reserved0, Flags: byte(t.Int(16)), Raw: g.Bin(262144 + 1 + t.Int(3<<20))}
+		}
 	}
 	frame, fm = ref.Encode(a)
 	valid = true
